@@ -3329,3 +3329,218 @@ func checkPruneInPairs(p *Program, r *Report, rule string) {
 	}
 	r.Floor(rule, "niece drops in prune", n, 2)
 }
+
+// ---------------------------------------------------------------------------
+// MERGE-WALK-SORTED (R07h). A list that is consumed through a cursor which
+// only moves forward, by comparing its current element with the counter of a
+// loop (`i == xs[c]` ... `i > xs[c]`), is walked like one side of a merge: every
+// element smaller than one already passed is never seen again. Such a list
+// has to be sorted. When it is a parameter that reaches the walk in the
+// caller's order from an exported entry - without a sorting copy or an
+// in-place sort on the way - an unsorted argument silently loses elements.
+
+func checkMergeWalkSorted(p *Program, r *Report, rule string, entryName string) {
+	e := p.Func(entryName)
+	if e == nil {
+		r.MissingAnchor(rule, entryName, "entry not found")
+		return
+	}
+	reach := p.StaticReach(e)
+	reach[e] = true
+	n := 0
+	for _, g := range sortedFuncs(p, reach) {
+		if g.Blocks == nil || !p.owns(g) {
+			continue
+		}
+		done := map[ssa.Value]bool{}
+		for _, b := range g.Blocks {
+			for _, in := range b.Instrs {
+				ia, ok := in.(*ssa.IndexAddr)
+				if !ok {
+					continue
+				}
+				var par *ssa.Parameter
+				var sortedCopy *ssa.Call
+				switch x := ia.X.(type) {
+				case *ssa.Parameter:
+					par = x
+				case *ssa.Call:
+					if sc := x.Common().StaticCallee(); sc != nil && strings.HasPrefix(sc.Name(), "copySorted") {
+						sortedCopy = x
+					}
+				}
+				if (par == nil && sortedCopy == nil) || done[ia.X] {
+					continue
+				}
+				if _, isSlice := ia.X.Type().Underlying().(*types.Slice); !isSlice {
+					continue
+				}
+				// the index is a forward-only cursor: phi(0, c+1...) and not the counter of a loop over this very slice
+				cur, ok := ia.Index.(*ssa.Phi)
+				if !ok {
+					continue
+				}
+				forward := true
+				for _, edge := range cur.Edges {
+					switch x := edge.(type) {
+					case *ssa.Const:
+					case *ssa.BinOp:
+						if x.Op != token.ADD {
+							forward = false
+						}
+					case *ssa.Phi:
+					default:
+						forward = false
+					}
+				}
+				if !forward {
+					continue
+				}
+				// the element is compared with a loop counter both for equality and for order
+				h := innermostLoopHeader(b)
+				if h == nil {
+					continue
+				}
+				hasEq, hasOrd := false, false
+				for _, bb := range g.Blocks {
+					if !loopContains(h, bb) {
+						continue
+					}
+					for _, in2 := range bb.Instrs {
+						bo, ok := in2.(*ssa.BinOp)
+						if !ok {
+							continue
+						}
+						fromElem := func(v ssa.Value) bool {
+							return flowsFrom(v, func(x ssa.Value) bool {
+								u, ok := x.(*ssa.UnOp)
+								if !ok {
+									return false
+								}
+								ia2, ok := u.X.(*ssa.IndexAddr)
+								return ok && ia2.X == ia.X && ia2.Index == ia.Index
+							}, 0, map[ssa.Value]bool{})
+						}
+						fromCounter := func(v ssa.Value) bool {
+							return flowsFrom(v, func(x ssa.Value) bool {
+								ph, ok := x.(*ssa.Phi)
+								return ok && ph != cur && ph.Block() == h
+							}, 0, map[ssa.Value]bool{})
+						}
+						if (fromElem(bo.X) && fromCounter(bo.Y)) || (fromElem(bo.Y) && fromCounter(bo.X)) {
+							switch bo.Op {
+							case token.EQL, token.NEQ:
+								hasEq = true
+							case token.LSS, token.GTR, token.LEQ, token.GEQ:
+								hasOrd = true
+							}
+						}
+					}
+				}
+				if !hasEq || !hasOrd {
+					continue
+				}
+				done[ia.X] = true
+				n++
+				if sortedCopy != nil {
+					name := "list"
+					if len(sortedCopy.Common().Args) > 0 {
+						name = sortedCopy.Common().Args[0].Name()
+					}
+					r.Discharge(rule, fmt.Sprintf("%s/%s/merge-walk", p.FuncName(g), name), posOf(p, ia), "the list walked with a forward-only cursor is a sorting copy made in this function", true)
+					continue
+				}
+				key := fmt.Sprintf("%s/%s/merge-walk", p.FuncName(g), par.Name())
+				if why, ok := sortedOnTheWay(p, e, g, par, b, 0); ok {
+					r.Discharge(rule, key, posOf(p, ia), "the list walked with a forward-only cursor is sorted first: "+why, true)
+				} else {
+					r.Violate(rule, key, posOf(p, ia), "the list "+par.Name()+" is walked with a forward-only cursor against the loop counter, which is right only for a sorted list, but it reaches this walk in the caller's order ("+why+"): an unsorted argument silently loses every element smaller than one already passed", "in "+p.FuncName(g)+", reached from "+entryName)
+				}
+			}
+		}
+	}
+	r.Floor(rule, "forward-only cursor walks over a list parameter", n, 1)
+}
+
+// sortedOnTheWay: parameter par of g, as used in block b, is sorted: in g
+// before b (an in-place sort that dominates b), or at every static call site
+// of g the argument is a sorting copy or a parameter that is itself sorted on
+// the way from the entry.
+func sortedOnTheWay(p *Program, entry, g *ssa.Function, par *ssa.Parameter, b *ssa.BasicBlock, depth int) (string, bool) {
+	isSortCall := func(c *ssa.Call, v ssa.Value) bool {
+		f := calleeFunc(c.Common())
+		if f == nil {
+			return false
+		}
+		name := f.Name()
+		pkg := ""
+		if f.Pkg() != nil {
+			pkg = f.Pkg().Path()
+		}
+		inPlace := (pkg == "sort" && (name == "Slice" || name == "SliceStable" || name == "Sort")) ||
+			(strings.HasSuffix(pkg, "slices") && (name == "Sort" || name == "SortFunc" || name == "SortStableFunc"))
+		if !inPlace {
+			return false
+		}
+		for _, a := range c.Common().Args {
+			if flowsFrom(a, func(x ssa.Value) bool { return x == v }, 0, map[ssa.Value]bool{}) {
+				return true
+			}
+		}
+		return false
+	}
+	if b != nil {
+		for _, bb := range g.Blocks {
+			for _, in := range bb.Instrs {
+				if c, ok := in.(*ssa.Call); ok && isSortCall(c, par) && (bb == b || bb.Dominates(b)) {
+					return "sorted in place in " + p.FuncName(g), true
+				}
+			}
+		}
+	}
+	if g == entry || depth > 4 {
+		return "it is the entry's parameter " + par.Name(), false
+	}
+	idx := -1
+	for i, q := range g.Params {
+		if q == par {
+			idx = i
+		}
+	}
+	sites := 0
+	for _, caller := range sortedFuncs(p, p.StaticReach(entry)) {
+		_ = caller
+	}
+	callers := p.StaticReach(entry)
+	callers[entry] = true
+	for _, caller := range sortedFuncs(p, callers) {
+		for _, sc := range callsIn(p, caller) {
+			if sc.call.Common().StaticCallee() != g {
+				continue
+			}
+			sites++
+			args := sc.call.Common().Args
+			if idx >= len(args) {
+				return "unresolved call site", false
+			}
+			a := args[idx]
+			if c, ok := a.(*ssa.Call); ok {
+				if sc2 := c.Common().StaticCallee(); sc2 != nil && strings.HasPrefix(sc2.Name(), "copySorted") {
+					continue
+				}
+				return "it is the result of " + calleeLabel(p, c.Common()), false
+			}
+			if q, ok := a.(*ssa.Parameter); ok {
+				if why, ok := sortedOnTheWay(p, entry, caller, q, sc.call.Block(), depth+1); !ok {
+					return why, false
+				}
+				continue
+			}
+			return "it is " + a.Name() + " at " + p.Pos(sc.call.Pos()), false
+		}
+	}
+	if sites == 0 {
+		return "no static call site", false
+	}
+	return "a sorting copy or an in-place sort at every call site", true
+}
